@@ -666,10 +666,28 @@ let run_swp toks =
   " n=" ^ string_of_int (Stdlib.List.length tbl) ^
   " removed=" ^ string_of_int (Stdlib.List.length !st.Sweep.ss_log)
 
+(* scn <a> <b> <limit> P<k>,<v>,<vis> D<k> S ...  (Model.Scan events) -> <k>:<v>;... *)
+let run_scn toks =
+  match toks with
+  | a :: b :: limit :: evs ->
+    let a = n_of_string a and b = n_of_string b and limit = Nat_conv.nat_of_int (int_of_string limit) in
+    let w = ref Scan.winit in
+    Stdlib.List.iter (fun t ->
+        let body = Stdlib.String.sub t 1 (Stdlib.String.length t - 1) in
+        let args = Stdlib.List.filter (fun x -> x <> "") (Stdlib.String.split_on_char ',' body) in
+        let ev = match t.[0], args with
+          | 'P', [k; v; vis] -> Scan.MPut (n_of_string k, n_of_string v, vis = "1")
+          | 'D', [k] -> Scan.MDel (n_of_string k)
+          | 'S', [] -> Scan.SStep
+          | _ -> failwith ("bad scan event " ^ t) in
+        w := Scan.wstep a b limit !w ev) evs;
+    Stdlib.String.concat ";" (Stdlib.List.map (fun (k, v) -> string_of_n k ^ ":" ^ string_of_n v) !w.Scan.w_out)
+  | _ -> failwith "bad scan case"
+
 let run_note _ = "note"
 
 let handlers : (string * (string list -> string)) list ref =
-  ref [ ("fs", run_fs); ("open", run_open); ("note", run_note); ("codec", run_codec); ("readdev", run_readdev); ("lww", run_lww); ("monitor", run_monitor); ("cache", run_cache); ("migrate", run_migrate); ("conc", run_conc); ("hist", run_hist); ("pins", run_pins); ("inflight", run_inflight); ("swp", run_swp) ]
+  ref [ ("fs", run_fs); ("open", run_open); ("note", run_note); ("codec", run_codec); ("readdev", run_readdev); ("lww", run_lww); ("monitor", run_monitor); ("cache", run_cache); ("migrate", run_migrate); ("conc", run_conc); ("hist", run_hist); ("pins", run_pins); ("inflight", run_inflight); ("swp", run_swp); ("scn", run_scn) ]
 
 
 let () =
